@@ -84,7 +84,7 @@ def _attach_priority(E, v):
 
 
 # ------------------------------------------------------------- sample_batch
-def _row_is_stored(E, prefix, v, batch, idx, B_):
+def _row_is_stored(E, prefix, v, batch, idx, B_, using=None):
     """forall row < B: the row equals history entry j(row) in every field, with
     j(row) inside the retained window [n-len, n)."""
     o = v.obj
@@ -105,7 +105,7 @@ def _row_is_stored(E, prefix, v, batch, idx, B_):
         return z3.Implies(z3.And(r >= 0, r < C.to_z3(B_)), z3.And(*parts))
 
     E.st.oblige_forall(f"{prefix}.rows_are_stored_transitions", [INT], goal, hint="row",
-                       using=["WF.data", "integers.range", f"{prefix}.interval_law"])
+                       using=using or ["WF.data", "integers.range", f"{prefix}.interval_law"])
 
 
 def mk_sample(cls, keys):
